@@ -31,7 +31,7 @@ def gen_machine(rnd):
                 ext_in += 1
     for p in range(nproc):
         for o in range(procs[p]["M"]):
-            if (p, o) not in consumed or rnd.random() < 0.25:
+            if (p, o) not in consumed or rnd.random() < 0.6:     # fan-out: a processor consumer and the (fast) environment
                 bonds.append(["o%d" % ext_out, "p%do%d" % (p, o)])
                 ext_out += 1
     specs = []
@@ -48,6 +48,7 @@ def gen_machine(rnd):
         for o in range(M):
             prog.append("r2owa r%d o%d" % (rnd.randrange(4), o))
             prog += pad()
+        prog += ["nop"] * rnd.choice([0, 0, 4, 9])        # consumers of one producer run at different speeds
         prog.append("j 0")
         O = max(3, (len(prog)).bit_length())
         ops = sorted(set(l.split()[0] for l in prog) | {"nop", "j"})
